@@ -532,6 +532,41 @@ pub unsafe fn grow_impl_stub(_g: &std::alloc::Global, ptr: std::ptr::NonNull<u8>
     Ok(NonNull::slice_from_raw_parts(p, new.size()))
 }
 
+/// a type whose Deserialize asks for a borrowed str (IoReader::forward_read_str -> fill_buffer)
+pub struct StrOnly;
+impl<'de> serde::Deserialize<'de> for StrOnly {
+    fn deserialize<D: serde::Deserializer<'de>>(d: D) -> Result<Self, D::Error> {
+        struct V;
+        impl<'de> serde::de::Visitor<'de> for V {
+            type Value = StrOnly;
+            fn expecting(&self, f: &mut std::fmt::Formatter) -> std::fmt::Result {
+                f.write_str("str")
+            }
+            fn visit_str<E>(self, _: &str) -> Result<StrOnly, E> {
+                Ok(StrOnly)
+            }
+        }
+        d.deserialize_str(V)
+    }
+}
+/// a type whose Deserialize asks for borrowed bytes (IoReader::forward_read_bytes_with_hint -> fill_buffer)
+pub struct BytesOnly;
+impl<'de> serde::Deserialize<'de> for BytesOnly {
+    fn deserialize<D: serde::Deserializer<'de>>(d: D) -> Result<Self, D::Error> {
+        struct V;
+        impl<'de> serde::de::Visitor<'de> for V {
+            type Value = BytesOnly;
+            fn expecting(&self, f: &mut std::fmt::Formatter) -> std::fmt::Result {
+                f.write_str("bytes")
+            }
+            fn visit_bytes<E>(self, _: &[u8]) -> Result<BytesOnly, E> {
+                Ok(BytesOnly)
+            }
+        }
+        d.deserialize_bytes(V)
+    }
+}
+
 macro_rules! alloc_harness {
     ($name:ident, $n:expr, $code:expr, |$buf:ident| $call:expr) => {
         #[cfg(kani)]
@@ -567,4 +602,14 @@ alloc_harness!(c04_alloc_vbin32_slice, 7, VBIN32, |buf| serde_amqp::from_slice::
 // @tier-of c04_alloc_vbin32_io thorough
 // @mem 40
 alloc_harness!(c04_alloc_vbin32_io, 7, VBIN32, |buf| serde_amqp::from_reader::<serde_bytes::ByteBuf>(&buf[..]));
+// @tier-of c04_alloc_str32_io_borrowed thorough
+// @unwind 4100
+// @mem 40
+// @bound as above, through IoReader::fill_buffer (a visitor that takes &str / &[u8]); the 4 KiB zero-fill loop is unwound completely
+alloc_harness!(c04_alloc_str32_io_borrowed, 7, 0xb1, |buf| serde_amqp::from_reader::<StrOnly>(&buf[..]));
+// @tier-of c04_alloc_vbin32_io_borrowed thorough
+// @unwind 4100
+// @mem 40
+alloc_harness!(c04_alloc_vbin32_io_borrowed, 7, VBIN32, |buf| serde_amqp::from_reader::<BytesOnly>(&buf[..]));
+// @unwind 4
 alloc_harness!(c04_alloc_vbin8_slice, 4, VBIN8, |buf| serde_amqp::from_slice::<serde_bytes::ByteBuf>(&buf));
